@@ -48,7 +48,8 @@ pub fn kind_of_debug(dbg: &str) -> String {
     parts.join(".")
 }
 
-fn err<E: std::fmt::Debug>(e: E) -> Value {
+fn err<E: Into<tz::TzError>>(e: E) -> Value {
+    let e: tz::TzError = e.into();
     json!({ "err": kind_of_debug(&format!("{e:?}")) })
 }
 
@@ -90,8 +91,8 @@ fn opt_dt(x: Option<DateTime>) -> Value {
 
 fn found_json(k: &FoundDateTimeKind) -> Value {
     match k {
-        FoundDateTimeKind::Normal(d) => json!({ "N": dt_json(d) }),
-        FoundDateTimeKind::Skipped { before_transition, after_transition } => json!({ "S": [dt_json(before_transition), dt_json(after_transition)] }),
+        FoundDateTimeKind::Normal(d) => json!(["N", dt_json(d)]),
+        FoundDateTimeKind::Skipped { before_transition, after_transition } => json!(["S", dt_json(before_transition), dt_json(after_transition)]),
     }
 }
 
@@ -268,6 +269,20 @@ fn zone_ref<'a>(st: &'a State) -> TimeZoneRef<'a> {
     }
 }
 
+fn find_json(a: &Value, z: TimeZoneRef<'_>) -> Value {
+    let f = fields(a);
+    match DateTime::find(f.y, f.mo, f.d, f.h, f.mi, f.s, f.ns, z) {
+        Ok(l) => {
+            let unique = opt_dt(l.unique());
+            let earliest = opt_dt(l.earliest());
+            let latest = opt_dt(l.latest());
+            let list: Vec<Value> = l.into_inner().iter().map(found_json).collect();
+            ok(json!({ "list": list, "unique": unique, "earliest": earliest, "latest": latest }))
+        }
+        Err(e) => err(e),
+    }
+}
+
 pub fn exec(op: &str, a: &Value, st: &mut State) -> Value {
     let r = catch_unwind(AssertUnwindSafe(|| exec_inner(op, a, st)));
     match r {
@@ -373,13 +388,13 @@ fn exec_inner(op: &str, a: &Value, st: &mut State) -> Value {
                 "dt" => match mk_type(getv(a, "type")) {
                     Ok(ty) => match DateTime::from_timespec_and_local(t, ns, ty) {
                         Ok(src) => src.project(zone_ref(st)).map(|x| json!({"src": dt_json(&src), "dst": dt_json(&x)})).map(ok).unwrap_or_else(err),
-                        Err(e) => json!({ "arg": err(e) }),
+                        Err(_) => json!({ "err": "Construct" }),
                     },
                     Err(e) => json!({ "arg": e }),
                 },
                 "utc" => match UtcDateTime::from_timespec(t, ns) {
                     Ok(src) => src.project(zone_ref(st)).map(|x| json!({"src": udt_json(&src), "dst": dt_json(&x)})).map(ok).unwrap_or_else(err),
-                    Err(e) => json!({ "arg": err(e) }),
+                    Err(_) => json!({ "err": "Construct" }),
                 },
                 _ => json!({"arg": "via"}),
             }
@@ -396,7 +411,7 @@ fn exec_inner(op: &str, a: &Value, st: &mut State) -> Value {
                     "eq": (x == y) as u8,
                     "ord": match x.partial_cmp(&y) { Some(std::cmp::Ordering::Less) => -1, Some(std::cmp::Ordering::Equal) => 0, Some(std::cmp::Ordering::Greater) => 1, None => 2 },
                 })),
-                (Err(e), _) | (_, Err(e)) => json!({ "arg": e }),
+                (Err(_), _) | (_, Err(_)) => json!({ "err": "Construct" }),
             }
         }
         // ---- C11 ----
@@ -418,7 +433,7 @@ fn exec_inner(op: &str, a: &Value, st: &mut State) -> Value {
                 Ok(t) => t,
                 Err(e) => return json!({ "arg": e }),
             };
-            AlternateTime::new(std, dst, sd, geti(a, "st") as i32, ed, geti(a, "et") as i32).map(|_| ok(json!({}))).unwrap_or_else(err)
+            AlternateTime::new(std, dst, sd, geti(a, "st") as i32, ed, geti(a, "et") as i32).map(|_| ok(json!(1))).unwrap_or_else(err)
         }
         // ---- C13 / C03 ----
         "zone" => {
@@ -426,7 +441,6 @@ fn exec_inner(op: &str, a: &Value, st: &mut State) -> Value {
                 Ok(p) => p,
                 Err(e) => return e,
             };
-            let via = gets(a, "via");
             // both constructors are always called so that "decide identically" is observable in every event
             let r_ref = TimeZoneRef::new(&tr, &ty, &lp, &rule).map(|_| ());
             let r_owned = TimeZone::new(tr.clone(), ty.clone(), lp.clone(), rule);
@@ -439,7 +453,7 @@ fn exec_inner(op: &str, a: &Value, st: &mut State) -> Value {
                     let same = zone_json(&z.as_ref());
                     st.zone = Some(z);
                     st.buf = vec![None; BUF_LEN];
-                    json!({ "ok": {"ref": kref, "echo": same} , "via": via })
+                    json!({ "ok": {"ref": kref, "echo": same} })
                 }
                 Err(e) => {
                     st.zone = None;
@@ -457,46 +471,26 @@ fn exec_inner(op: &str, a: &Value, st: &mut State) -> Value {
             }
         }
         // ---- C05 / C06 / C17 ----
-        "find" => {
-            let f = fields(a);
-            match DateTime::find(f.y, f.mo, f.d, f.h, f.mi, f.s, f.ns, zone_ref(st)) {
-                Ok(l) => {
-                    let unique = opt_dt(l.unique());
-                    let earliest = opt_dt(l.earliest());
-                    let latest = opt_dt(l.latest());
-                    let list: Vec<Value> = l.into_inner().iter().map(found_json).collect();
-                    ok(json!({ "list": list, "unique": unique, "earliest": earliest, "latest": latest }))
-                }
-                Err(e) => err(e),
-            }
-        }
+        "find" => find_json(a, zone_ref(st)),
         "findn" => {
             let f = fields(a);
             let n = geti(a, "n") as usize;
+            let full = find_json(a, zone_ref(st));
             let z = match &st.zone {
                 Some(z) => z.as_ref(),
                 None => TimeZoneRef::utc(),
             };
             let buf = &mut st.buf;
             let res = match DateTime::find_n(&mut buf[..n], f.y, f.mo, f.d, f.h, f.mi, f.s, f.ns, z) {
-                Ok(l) => Ok(json!({
+                Ok(l) => ok(json!({
                     "data": l.data().iter().map(|x| match x { Some(k) => found_json(k), None => json!([]) }).collect::<Vec<_>>(),
                     "count": l.count(), "exh": l.is_exhaustive() as u8,
                     "unique": opt_dt(l.unique()), "earliest": opt_dt(l.earliest()), "latest": opt_dt(l.latest()),
                 })),
-                Err(e) => Err(err(e)),
+                Err(e) => err(e),
             };
             let whole: Vec<Value> = buf.iter().map(|x| match x { Some(k) => found_json(k), None => json!([]) }).collect();
-            match res {
-                Ok(mut v) => {
-                    v.as_object_mut().unwrap().insert("buf".into(), Value::Array(whole));
-                    ok(v)
-                }
-                Err(mut e) => {
-                    e.as_object_mut().unwrap().insert("buf".into(), Value::Array(whole));
-                    e
-                }
-            }
+            json!({ "full": full, "res": res, "buf": whole })
         }
         // ---- C18 ----
         "render" => {
